@@ -158,6 +158,9 @@ def C16(ctx):
                                                         back=base[i_n]["body"][:29] + [base[i_n]["body"][29] ^ 1], h=base[i_n]["h"]))
         m[i_n + 1]["db"] = base[i_n]["db"]
         muts.append(("two node ids sharing one db key", m, i_n + 2))
+        i_r = next(i for i, e in enumerate(base) if e["k"] == "sorted" and e["p"][0] != e["p"][1])
+        m = copy.deepcopy(base); m[i_r]["alt"][0][0], m[i_r]["alt"][0][1] = m[i_r]["alt"][0][1], m[i_r]["alt"][0][0]
+        muts.append(("by-reference entry point with the sort prefix bytes swapped", m, i_r + 1))
         mpaths = []
         for j, (_, m, _) in enumerate(muts):
             p = ctx.wpath("km-mut-%d.ndjson" % j)
@@ -173,6 +176,9 @@ def C16(ctx):
     distinct = len({json.dumps([e["k"], e.get("p"), e.get("body"), e.get("f"), e.get("pn")]) for e in evs if e["k"] != "reset"})
     return {"exhaustive": False, "distinct_nontrivial": distinct,
             "hash_functions_enumerated": r.actions["Init"][0], "input_classes": len(classes),
+            "entry_points_per_key": "to_db_sort_key, to_db_sort_key_from_ref, field/map/sorted_to_db_sort_key, to_db_partition_key, to_db_node_key, "
+                                    "to_db_partition_num and the inverses from_db_sort_key::<K>, from_db_sort_key_to_inner::<K>, "
+                                    "field/map/sorted_from_db_sort_key, from_db_partition_key, from_db_node_key, from_db_partition_num",
             "rule": "S: TLC enumerates every hash function [bodies of length <= 2 over {0,1} -> %d hash byte(s)] and every "
                     "node/field/map/sorted mapper call; round trip, injectivity per key kind and the sort-prefix order law are "
                     "invariants. T: %d input classes enumerated by GenKeyMapper (all entity-type bytes x partition numbers, all 256 "
